@@ -67,7 +67,8 @@ impl Layout {
                 }
             };
             let start = next.max(at);
-            let end = start + (m.pages.max(1) as u64) * PAGE;
+            // sizes are folded below 4 GiB (the generators stay far below; bounds the cost of byte-decoded cases)
+            let end = start + ((m.pages % (1 << 20)).max(1) as u64) * PAGE;
             if end > limit {
                 break;
             }
